@@ -13,6 +13,7 @@ import (
 	"verifharness/gen"
 	"verifharness/model"
 	"verifharness/mon"
+	"verifharness/trigkit"
 )
 
 // C17 — triggers fire exactly when specified.
@@ -28,13 +29,13 @@ type c17Ev struct {
 }
 
 type c17TrigCase struct {
-	Trig    []mon.TrigSpec `json:"trig"`
-	Keys    [][]gen.JV     `json:"keys"` // the key universe; Keys[i][TimeIdx] is a Time when a watermark trigger is used
-	TimeIdx int            `json:"time_idx"`
-	Evs     []c17Ev        `json:"evs"`
+	Trig    []trigkit.TrigSpec `json:"trig"`
+	Keys    [][]gen.JV         `json:"keys"` // the key universe; Keys[i][TimeIdx] is a Time when a watermark trigger is used
+	TimeIdx int                `json:"time_idx"`
+	Evs     []c17Ev            `json:"evs"`
 }
 
-func trigString(trig []mon.TrigSpec) string {
+func trigString(trig []trigkit.TrigSpec) string {
 	parts := make([]string, len(trig))
 	for i, t := range trig {
 		parts[i] = t.String()
@@ -73,7 +74,7 @@ func fmtKey(k []gen.JV) string {
 	return "(" + strings.Join(parts, ",") + ")"
 }
 
-func hasKind(trig []mon.TrigSpec, kind string) bool {
+func hasKind(trig []trigkit.TrigSpec, kind string) bool {
 	for _, t := range trig {
 		if t.Kind == kind {
 			return true
@@ -82,7 +83,7 @@ func hasKind(trig []mon.TrigSpec, kind string) bool {
 	return false
 }
 
-func validTrig(trig []mon.TrigSpec) bool {
+func validTrig(trig []trigkit.TrigSpec) bool {
 	if len(trig) == 0 {
 		return false
 	}
@@ -94,6 +95,62 @@ func validTrig(trig []mon.TrigSpec) bool {
 			}
 		case "watermark", "eos":
 		default:
+			return false
+		}
+	}
+	return true
+}
+
+var c17Rec *ev.Rec
+
+const findingZone = "watermark-trigger-zone-collision"
+
+// zoneCollisionIDs is the signature of the known finding: among the received keys, the ids of all keys whose time field
+// is an instant that occurs on at least two different group keys, at least one of them written with a non-UTC offset.
+// WatermarkTrigger orders its pending keys by (time, key) but tests the times with == (time.Time struct equality, which
+// includes the *Location pointer; time.Parse allocates a fresh FixedZone per parsed value, exactly as gen.JV.Oct does), so
+// for such keys neither is Less than the other and the btree treats different group keys as one.
+func zoneCollisionIDs(keys [][]gen.JV, timeIdx int, received map[int]bool) map[string]bool {
+	type inst struct {
+		zones map[int]bool
+		ids   map[string]bool
+	}
+	by := map[int64]*inst{}
+	for i := range keys {
+		if !received[i] {
+			continue
+		}
+		tv := keys[i][timeIdx]
+		in := by[tv.I]
+		if in == nil {
+			in = &inst{map[int]bool{}, map[string]bool{}}
+			by[tv.I] = in
+		}
+		in.zones[tv.Z] = true
+		in.ids[mon.RowKey(gen.Octs(keys[i]))] = true
+	}
+	out := map[string]bool{}
+	for _, in := range by {
+		if (len(in.zones) >= 2 || !in.zones[0]) && len(in.ids) >= 2 {
+			for id := range in.ids {
+				out[id] = true
+			}
+		}
+	}
+	return out
+}
+
+// onlyDiffersOn: the two multisets differ only in members of ids.
+func onlyDiffersOn(a, b []string, ids map[string]bool) bool {
+	cnt := map[string]int{}
+	for _, x := range a {
+		cnt[x]++
+	}
+	for _, x := range b {
+		cnt[x]--
+	}
+	for id, n := range cnt {
+		if n != 0 && !ids[id] {
 			return false
 		}
 	}
@@ -131,14 +188,16 @@ func c17TrigProp(c c17TrigCase) ev.Outcome {
 		}
 	}
 
-	real := mon.TriggerPrototype(c.Trig, c.TimeIdx)()
+	real := trigkit.TriggerPrototype(c.Trig, c.TimeIdx)()
 	ref := newRef(c.Trig)
 	multi := len(c.Trig) > 1
 	fires := map[string]int{}
 	receivedAfterFire, firesTwice, sawFire := false, false, false
+	received := map[int]bool{}
 	for i, e := range c.Evs {
 		switch e.K {
 		case "key":
+			received[e.Key] = true
 			gk := execution.GroupKey(gen.Octs(c.Keys[e.Key]))
 			rk := refKey{id: mon.RowKey(gk)}
 			if wmTrig {
@@ -170,6 +229,11 @@ func c17TrigProp(c c17TrigCase) ev.Outcome {
 			g, w = sortedCopy(got), sortedCopy(want)
 		}
 		if strings.Join(g, " ; ") != strings.Join(w, " ; ") {
+			if wmTrig && c17Rec != nil && c17Rec.Known(findingZone) {
+				if ids := zoneCollisionIDs(c.Keys, c.TimeIdx, received); len(ids) > 0 && onlyDiffersOn(g, w, ids) {
+					return ev.Outcome{Excluded: findingZone, Classes: []string{"api_trigger_" + trigClass(c.Trig), "api_zoned_time_key"}}
+				}
+			}
 			return ev.Fail("%s\n  after event %d Poll() returned the keys {%s}, the trigger specification fires {%s} (compared as %s)",
 				c.String(), i+1, strings.Join(g, " ; "), strings.Join(w, " ; "), how)
 		}
@@ -202,7 +266,7 @@ func c17TrigProp(c c17TrigCase) ev.Outcome {
 	return o
 }
 
-func trigClass(trig []mon.TrigSpec) string {
+func trigClass(trig []trigkit.TrigSpec) string {
 	parts := make([]string, len(trig))
 	for i, t := range trig {
 		parts[i] = t.Kind
@@ -211,20 +275,20 @@ func trigClass(trig []mon.TrigSpec) string {
 }
 
 // every non-empty subset of {COUNTING n (n in 1..4), ON WATERMARK, ON END OF STREAM}
-func allTrigConfigs(withWatermark bool) [][]mon.TrigSpec {
-	var out [][]mon.TrigSpec
+func allTrigConfigs(withWatermark bool) [][]trigkit.TrigSpec {
+	var out [][]trigkit.TrigSpec
 	for n := uint(0); n <= 4; n++ {
 		for wm := 0; wm <= 1; wm++ {
 			for eos := 0; eos <= 1; eos++ {
-				var t []mon.TrigSpec
+				var t []trigkit.TrigSpec
 				if n > 0 {
-					t = append(t, mon.TrigSpec{Kind: "counting", N: n})
+					t = append(t, trigkit.TrigSpec{Kind: "counting", N: n})
 				}
 				if wm == 1 {
-					t = append(t, mon.TrigSpec{Kind: "watermark"})
+					t = append(t, trigkit.TrigSpec{Kind: "watermark"})
 				}
 				if eos == 1 {
-					t = append(t, mon.TrigSpec{Kind: "eos"})
+					t = append(t, trigkit.TrigSpec{Kind: "eos"})
 				}
 				if len(t) == 0 || (wm == 1) != withWatermark {
 					continue
@@ -242,9 +306,9 @@ type c17Universe struct {
 }
 
 var c17Universes = []c17Universe{
-	{0, [][]gen.JV{{gen.Time(10), gen.Int(1)}, {gen.Time(20), gen.Int(1)}}},               // two times
-	{0, [][]gen.JV{{gen.Time(10), gen.Int(1)}, {gen.Time(10), gen.Int(2)}}},               // one time, two keys
-	{1, [][]gen.JV{{gen.Int(1), gen.Time(10)}, {gen.Int(2), gen.Time(20)}}},               // time field second
+	{0, [][]gen.JV{{gen.Time(10), gen.Int(1)}, {gen.Time(20), gen.Int(1)}}},                // two times
+	{0, [][]gen.JV{{gen.Time(10), gen.Int(1)}, {gen.Time(10), gen.Int(2)}}},                // one time, two keys
+	{1, [][]gen.JV{{gen.Int(1), gen.Time(10)}, {gen.Int(2), gen.Time(20)}}},                // time field second
 	{0, [][]gen.JV{{gen.Time(10), gen.Int(1)}, {{K: "time", I: 10, Z: 3600}, gen.Int(2)}}}, // one instant written in two zones
 }
 
@@ -286,17 +350,17 @@ func c17Sequences(nKeys int, wms []int64, yield func([]c17Ev) bool) bool {
 	return rec(0)
 }
 
-func genTrig(t *rapid.T, watermarkOK bool) []mon.TrigSpec {
+func genTrig(t *rapid.T, watermarkOK bool) []trigkit.TrigSpec {
 	for {
-		var trig []mon.TrigSpec
+		var trig []trigkit.TrigSpec
 		if rapid.Bool().Draw(t, "counting") {
-			trig = append(trig, mon.TrigSpec{Kind: "counting", N: uint(rapid.IntRange(1, 4).Draw(t, "n"))})
+			trig = append(trig, trigkit.TrigSpec{Kind: "counting", N: uint(rapid.IntRange(1, 4).Draw(t, "n"))})
 		}
 		if watermarkOK && rapid.Bool().Draw(t, "watermark") {
-			trig = append(trig, mon.TrigSpec{Kind: "watermark"})
+			trig = append(trig, trigkit.TrigSpec{Kind: "watermark"})
 		}
 		if rapid.Bool().Draw(t, "eos") {
-			trig = append(trig, mon.TrigSpec{Kind: "eos"})
+			trig = append(trig, trigkit.TrigSpec{Kind: "eos"})
 		}
 		if len(trig) == 0 {
 			continue
@@ -347,8 +411,8 @@ func genTrigCase(t *rapid.T) c17TrigCase {
 // ================================================================================================================
 
 type c17NodeCase struct {
-	Spec mon.GroupBySpec `json:"spec"`
-	Msgs []mon.Msg       `json:"msgs"`
+	Spec trigkit.GroupBySpec `json:"spec"`
+	Msgs []mon.Msg           `json:"msgs"`
 }
 
 func (c c17NodeCase) String() string {
@@ -357,23 +421,23 @@ func (c c17NodeCase) String() string {
 		if a.Col < 0 {
 			aggs[i] = a.Name + "(*)"
 		} else {
-			aggs[i] = a.Name + "(" + mon.ChangelogCols[a.Col] + ")"
+			aggs[i] = a.Name + "(" + trigkit.Cols[a.Col] + ")"
 		}
 	}
 	keys := make([]string, len(c.Spec.Keys))
 	for i, k := range c.Spec.Keys {
-		keys[i] = mon.ChangelogCols[k]
+		keys[i] = trigkit.Cols[k]
 	}
 	return fmt.Sprintf("GROUP BY %s [time key index %d] aggregates %s TRIGGER %s over (t,k,x,y) stream: %s",
 		strings.Join(keys, ","), c.Spec.TimeKey, strings.Join(aggs, ","), trigString(c.Spec.Trig), mon.FormatMsgs(c.Msgs))
 }
 
-func validSpec(s mon.GroupBySpec) bool {
+func validSpec(s trigkit.GroupBySpec) bool {
 	if !validTrig(s.Trig) || len(s.Keys) == 0 || len(s.Aggs) == 0 {
 		return false
 	}
 	for _, k := range s.Keys {
-		if k < 0 || k >= len(mon.ChangelogCols) {
+		if k < 0 || k >= len(trigkit.Cols) {
 			return false
 		}
 	}
@@ -384,10 +448,10 @@ func validSpec(s mon.GroupBySpec) bool {
 		return false // logical.WatermarkTrigger.Typecheck refuses this
 	}
 	for _, a := range s.Aggs {
-		if a.Col >= len(mon.ChangelogCols) {
+		if a.Col >= len(trigkit.Cols) {
 			return false
 		}
-		if a.Col >= 0 && a.Kind != mon.ChangelogKinds[a.Col] {
+		if a.Col >= 0 && a.Kind != trigkit.Kinds[a.Col] {
 			return false
 		}
 	}
@@ -403,7 +467,7 @@ type visRow struct {
 }
 
 // consolidate folds output messages into visible rows, flagging a retraction of an absent row.
-func consolidate(outs []mon.Out, spec mon.GroupBySpec) (map[string]*visRow, error) {
+func consolidate(outs []mon.Out, spec trigkit.GroupBySpec) (map[string]*visRow, error) {
 	vis := map[string]*visRow{}
 	for i, o := range outs {
 		if o.IsWM {
@@ -465,13 +529,13 @@ func (ks *keyState) apply(m mon.Msg) {
 }
 
 type groups struct {
-	spec  mon.GroupBySpec
+	spec  trigkit.GroupBySpec
 	aggs  []model.AggRef
 	byID  map[string]*keyState
 	order []string
 }
 
-func newGroups(spec mon.GroupBySpec) *groups {
+func newGroups(spec trigkit.GroupBySpec) *groups {
 	g := &groups{spec: spec, byID: map[string]*keyState{}}
 	for _, a := range spec.Aggs {
 		g.aggs = append(g.aggs, model.AggRef{Name: a.Name, Col: a.Col})
@@ -507,11 +571,11 @@ func (g *groups) current(ks *keyState) string {
 }
 
 func c17NodeProp(c c17NodeCase) ev.Outcome {
-	if !validSpec(c.Spec) || mon.ValidChangelog(c.Msgs) != nil {
+	if !validSpec(c.Spec) || trigkit.ValidStream(c.Msgs) != nil {
 		return ev.Outcome{Discard: true}
 	}
 	spec := c.Spec
-	outs, marks, err := mon.RunMarked(c.Msgs, spec.CustomTrigger)
+	outs, marks, err := trigkit.RunMarked(c.Msgs, spec.CustomTrigger)
 	if err != nil {
 		return ev.Fail("%s\n  the node failed: %v", c.String(), err)
 	}
@@ -531,6 +595,7 @@ func c17NodeProp(c c17NodeCase) ev.Outcome {
 	firesTwice, receivedAfterFire, emittedTwiceBeforeEnd := false, false, false
 	var buffer []mon.Msg
 	ending := false
+	wmStatementChecked, countingStatementChecked := false, false
 
 	fire := func(ids []string, beforeEnd bool) {
 		for _, id := range asSet(ids) {
@@ -614,6 +679,7 @@ func c17NodeProp(c c17NodeCase) ev.Outcome {
 			// statement, directly: COUNTING n emits the key's current result after every n-th record for that key
 			// (untimed records reach the grouping immediately)
 			if counting && m.T == 0 && uint(sk.count)%countN == 0 {
+				countingStatementChecked = true
 				want := src.current(sk)
 				var got []string
 				for _, v := range vis {
@@ -638,6 +704,7 @@ func c17NodeProp(c c17NodeCase) ev.Outcome {
 			}
 			forwarded := marks[i] > 0 && outs[marks[i]-1].IsWM && outs[marks[i]-1].WM.UnixNano() == m.T
 			if wmTrig && forwarded {
+				wmStatementChecked = true
 				// statement, directly: the output already holds the current result of every key at or below W ...
 				for _, id := range src.order {
 					sk := src.byID[id]
@@ -734,6 +801,12 @@ func c17NodeProp(c c17NodeCase) ev.Outcome {
 	} else {
 		o.Classes = append(o.Classes, "node_untimed_stream")
 	}
+	if wmStatementChecked {
+		o.Classes = append(o.Classes, "node_forwarded_watermark_statement_checked")
+	}
+	if countingStatementChecked {
+		o.Classes = append(o.Classes, "node_counting_nth_record_statement_checked")
+	}
 	if firesTwice {
 		o.Classes = append(o.Classes, "node_key_fires_twice_or_more")
 	}
@@ -752,7 +825,7 @@ func c17NodeProp(c c17NodeCase) ev.Outcome {
 	return o
 }
 
-var c17AggPool = []mon.AggSpec{
+var c17AggPool = []trigkit.AggSpec{
 	{Name: "count", Col: -1}, {Name: "count", Col: 2, Kind: "int"}, {Name: "sum", Col: 2, Kind: "int"}, {Name: "sum", Col: 2, Kind: "int"},
 	{Name: "avg", Col: 2, Kind: "int"}, {Name: "min", Col: 2, Kind: "int"}, {Name: "max", Col: 2, Kind: "int"},
 	{Name: "sum", Col: 3, Kind: "float"}, {Name: "avg", Col: 3, Kind: "float"}, {Name: "count_distinct", Col: 2, Kind: "int"},
@@ -769,15 +842,15 @@ var c17KeyChoices = []keyChoice{{[]int{0, 1}, 0}, {[]int{1, 0}, 1}, {[]int{0}, 0
 
 func genNodeCase(t *rapid.T) c17NodeCase {
 	kc := rapid.SampledFrom(c17KeyChoices).Draw(t, "keys")
-	spec := mon.GroupBySpec{Keys: kc.keys, TimeKey: kc.timeKey}
+	spec := trigkit.GroupBySpec{Keys: kc.keys, TimeKey: kc.timeKey}
 	spec.Trig = genTrig(t, kc.timeKey >= 0)
 	na := rapid.IntRange(1, 3).Draw(t, "naggs")
 	for i := 0; i < na; i++ {
 		spec.Aggs = append(spec.Aggs, rapid.SampledFrom(c17AggPool).Draw(t, "agg"))
 	}
 	mode := rapid.IntRange(0, 4).Draw(t, "stream_mode") // 0: untimed; 1,2: event time == t; 3,4: event time <= t
-	opts := mon.ChangelogOpts{Timed: mode > 0, Below: mode >= 3, MaxLen: 24}
-	return c17NodeCase{Spec: spec, Msgs: mon.Changelog(t, opts)}
+	opts := trigkit.StreamOpts{Timed: mode > 0, Below: mode >= 3, MaxLen: 24}
+	return c17NodeCase{Spec: spec, Msgs: trigkit.Stream(t, opts)}
 }
 
 func TestC17(t *testing.T) {
@@ -790,6 +863,7 @@ func TestC17(t *testing.T) {
 			"non-trivial: a key fires at least twice, or is received again after it fired",
 		"watermarks never decrease and no record arrives at or below a sent watermark (C18); a retraction repeats the row of its insertion, with an event time not below the insertion's",
 		"end of stream counts as a watermark beyond every time: ON WATERMARK fires everything still pending at the end (C16 demands the final result for every trigger set)")
+	c17Rec = r
 	var nSeq int
 	c17Sequences(2, []int64{5, 10, 20}, func([]c17Ev) bool { nSeq++; return true })
 	r.SetExtra("api_sequences_per_configuration_with_watermark", nSeq)
